@@ -3908,7 +3908,14 @@ class StaleFileRemovalCommand : public Command {
     return false;
   }
 
-  virtual void start(BuildSystem&, TaskInterface) override {}
+  virtual void start(BuildSystem&, TaskInterface) override {
+    // The command object outlives a build when the build system is reused:
+    // forget what was derived from the previous build's prior value.
+    hasPriorResult = false;
+    priorValue = BuildValue::makeInvalid();
+    filesToDelete.clear();
+    computedFilesToDelete = false;
+  }
 
   virtual void providePriorValue(BuildSystem&, TaskInterface,
                                  const BuildValue& value) override {
